@@ -46,6 +46,22 @@ Theorem C07_arrays_and_lists_are_well_presented : forall p, is_frame p = false -
 Proof. exact arrays_well_presented. Qed.
 Print Assumptions C07_arrays_and_lists_are_well_presented.
 
+(* the float presentations of one rectangular matrix (C order, Fortran order = its transpose stored by columns, nested
+   lists, frame of its columns under any labels) are the same abstract request data *)
+Theorem C07_float_presentations_one_matrix : forall k (m : list (list Q)) ls, m <> [] -> (0 < k)%nat -> rect k m ->
+  abs (ArrF (transpose m)) = abs (ArrC m) /\ abs (Nested m) = abs (ArrC m) /\
+  abs (Frame ls (map QCol (transpose m))) = abs (ArrC m).
+Proof. exact float_presentations_one_matrix. Qed.
+Print Assumptions C07_float_presentations_one_matrix.
+
+(* integer-typed counts in any layout / container = the float array holding the same integers *)
+Theorem C07_int_presentations_one_matrix : forall k (mz : list (list Z)) ls, mz <> [] -> (0 < k)%nat -> rect k mz ->
+  abs (IntArrC mz) = abs (ArrC (of_ints mz)) /\ abs (IntNested mz) = abs (ArrC (of_ints mz)) /\
+  abs (IntArrF (transpose mz)) = abs (ArrC (of_ints mz)) /\
+  abs (Frame ls (map ZCol (transpose mz))) = abs (ArrC (of_ints mz)).
+Proof. exact int_presentations_one_matrix. Qed.
+Print Assumptions C07_int_presentations_one_matrix.
+
 (* every answer of every history is the FIRST answer given to the same abstract request (memo-table spec) *)
 Theorem C07_refines_memo_spec : forall (NpState PyState Rest : Type) (discover : request -> result)
   (h : list (op NpState PyState Rest)) (w : world NpState PyState Rest),
